@@ -163,15 +163,28 @@ Definition pred_closed (E : list (nat * nat)) (X : list nat) : Prop :=
 Lemma path_closed E X i j : pred_closed E X -> path E i j -> In j X -> In i X.
 Proof. intros C P. induction P; auto. intro Hj. eapply C; eauto. Qed.
 
+Lemma add_new_In acc new x : In x (add_new acc new) -> In x acc \/ In x new.
+Proof.
+  unfold add_new. revert acc. induction new as [|y new IH]; intros acc H; cbn in H; auto.
+  apply IH in H. destruct H as [H|H]; [|right; right; exact H].
+  destruct (mem y acc); auto. apply in_app_or in H. destruct H as [H|[<-|[]]]; auto. right. left. reflexivity.
+Qed.
+
+Lemma reach_set_sound E i : forall f l, (forall x, In x l -> path E i x) ->
+  forall x, In x (reach_set E f l) -> path E i x.
+Proof.
+  induction f as [|f IH]; intros l H x Hx; cbn [reach_set] in Hx; auto.
+  apply (IH (add_new l (succs E l))); auto.
+  intros y Hy. apply add_new_In in Hy. destruct Hy as [Hy|Hy]; auto.
+  unfold succs in Hy. apply in_flat_map in Hy. destruct Hy as ([a b] & He & Hb). cbn [fst snd] in Hb.
+  destruct (mem a l) eqn:M; [|destruct Hb]. destruct Hb as [<-|[]].
+  apply mem_In in M. apply (path_snoc E i a b); auto.
+Qed.
+
 Lemma reach_sound E : forall f i j, reach E f i j = true -> path E i j.
 Proof.
-  induction f as [|f IH]; intros i j H; cbn [reach] in H.
-  - rewrite orb_false_r in H. apply Nat.eqb_eq in H. subst. apply path_refl.
-  - apply orb_prop in H. destruct H as [H|H].
-    + apply Nat.eqb_eq in H. subst. apply path_refl.
-    + apply existsb_exists in H. destruct H as ([a b] & He & C). cbn in C.
-      apply andb_prop in C. destruct C as [C1 C2]. apply Nat.eqb_eq in C1. subst a.
-      eapply path_step; [exact He | apply IH; exact C2].
+  intros f i j H. unfold reach in H. apply mem_In in H.
+  apply (reach_set_sound E i f [i]); auto. intros x [<-|[]]. apply path_refl.
 Qed.
 
 Lemma has_dag_edge_In E i j : has_dag_edge E i j = true <-> In (i, j) E.
